@@ -28,7 +28,7 @@ def jobs(tier: str):
         return cfgs
 
     fams = ["C05", "C08", "C09", "C10", "C11", "C12", "C13", "C14", "C15", "C16"]
-    yield from compose.remap(compose.family_jobs(fams, tier, variants=12), "C04", mk, checks=("valid",), keep=slice_keep("quick"))
+    yield from compose.remap(compose.family_jobs(fams, "quick", variants=12 if quick else 60), "C04", mk, checks=("valid",), keep=slice_keep("quick"))
     for name, prog, inp, out, universe, consts_menu in compose.CORPUS:
         cfgs = [config(t, inp, out, NOORC) for t in ([], DEFAULT, TRAITS)] + [config(TRAITS, "auto", "auto", NOORC)]
         yield compose.corpus_job(name, prog, inp, out, universe, consts_menu[0], cfgs, "C04/corpus", checks=("valid",))
